@@ -266,6 +266,13 @@ def inspect_page(stem: str, src: pathlib.Path, page: str, rec: Recorder) -> list
         out.append((f"leftover-directive:{stem}", f"page {stem} still contains a :laws: directive"))
     blocks = data_blocks(page)
     if not blocks:
+        # a page without any member block: every documented public member of the source is then missing from it
+        try:
+            for name in source_docstrings(src):
+                if not name.startswith("_"):
+                    out.append((f"member-missing:{stem}:{name}", f"page {stem} does not list the documented member {name}"))
+        except Exception:  # pylint: disable=broad-except
+            pass
         rec.case({"page": stem}, nontrivial=False, labels=["page", "page:no-members"])
         return out
     modname = "symplyphysics." + stem
